@@ -227,6 +227,23 @@ func (f *Fam) genBegin(r *rand.Rand, s *Snapshot) string {
 			pw = pick(r, 0, 1, pw+5, pw/2)
 		}
 		e = fmt.Sprintf("%s:%d:%d:%d", a, maxi(h-1-int64(r.Intn(3)), 1), now-age, pw)
+		// now and then evidence against two or three validators in one block (they are dealt with in the order given)
+		if r.Intn(3) == 0 {
+			var live []string
+			for _, x := range l {
+				if x != a && s.Vals[x].Status != 0 && !s.Sign[x].Tomb {
+					live = append(live, x)
+				}
+			}
+			r.Shuffle(len(live), func(i, j int) { live[i], live[j] = live[j], live[i] })
+			for i := 0; i < len(live) && i < 1+r.Intn(2); i++ {
+				p2 := int64(1)
+				if q := s.Vals[live[i]].Tokens.Quo(sdk.NewInt(1000000)); q.IsInt64() {
+					p2 = q.Int64()
+				}
+				e += fmt.Sprintf(",%s:%d:%d:%d", live[i], maxi(h-1, 1), now-pick(r, 0, 1*sec, mea-1), p2)
+			}
+		}
 	}
 	return fmt.Sprintf("begin t=%d p=%s v=%s e=%s", now, prop, v, e)
 }
@@ -245,6 +262,11 @@ func (f *Fam) genTx(r *rand.Rand, s *Snapshot) string {
 		m := []string{"deliver", "deliver", "check", "simulate"}[r.Intn(4)]
 		if m == "simulate" && strings.Contains(old, "mut=msg") {
 			m = "deliver" // a simulation checks no signature: a changed message would simply be another message
+		}
+		if strings.Contains(old, " signer=1") && strings.Contains(old, "mut=none") && m != "simulate" && r.Intn(2) == 0 {
+			// the transaction of a multisignature account again, its component signatures exchanged or the first one
+			// repeated: the very signatures that verified before, now under the wrong components
+			old = strings.Replace(old, "mut=none", []string{"mut=msswap", "mut=msdup"}[r.Intn(2)], 1)
 		}
 		return "tx " + m + " " + old
 	}
@@ -468,7 +490,7 @@ func (f *Fam) genTx1(r *rand.Rand, s *Snapshot) string {
 	}
 	mut := "none"
 	if r.Intn(16) == 0 {
-		mut = []string{"sig", "fee", "memo", "ent", "emptysig", "trunc", "garbage", "msswap", "msdrop", "memosp", "memopre", "msg", "chain", "nilint"}[r.Intn(14)]
+		mut = []string{"sig", "fee", "memo", "ent", "emptysig", "trunc", "garbage", "msswap", "msdrop", "memosp", "memopre", "msg", "chain", "nilint", "msdup"}[r.Intn(15)]
 	}
 	// a signed field of the message changed after signing: every field of every message type in turn, and more often
 	// for the governance messages, whose senders are mostly the accounts that may issue them
